@@ -87,14 +87,19 @@ typedef struct group {
 
 static group_t * g_groups;
 static _Atomic long g_probes[N_KINDS], g_migr[N_KINDS], g_stackbytes;
-static _Atomic long g_children;
+static _Atomic long g_children, g_spurious_signals;
 
 typedef struct { group_t * g; int me; int step; hk_rng_t * r; } swarg_t;
 
 static void * child_fn(void * a) { long v = (long)(intptr_t)a; atomic_fetch_add(&g_children, 1); if (v & 1) myth_yield(); return (void *)(intptr_t)(v + 1); }
 static void once_init_fn(void) { myth_yield(); }
 
-static void sem_post_(sem_t_ * s) { myth_mutex_lock(&s->m); s->tokens++; myth_cond_signal(&s->c); myth_mutex_unlock(&s->m); }
+/* post: signal under the mutex, or (equally legal) after releasing it */
+static void sem_post_(sem_t_ * s, int outside) {
+  myth_mutex_lock(&s->m); s->tokens++;
+  if (outside) { myth_mutex_unlock(&s->m); myth_cond_signal(&s->c); }
+  else { myth_cond_signal(&s->c); myth_mutex_unlock(&s->m); }
+}
 static long sw_sem_wait(void * a_) { sem_t_ * s = (sem_t_ *)a_; myth_mutex_lock(&s->m); while (s->tokens == 0) myth_cond_wait(&s->c, &s->m); s->tokens--; myth_mutex_unlock(&s->m); return 1; }
 static long sw_yield(void * a_) { myth_yield_ex((int)(intptr_t)a_); return 2; }
 static long sw_create_join(void * a_) {
@@ -205,7 +210,10 @@ static __attribute__((noinline)) void run_steps(group_t * g, int me, hk_rng_t * 
     case K_BARRIER: probe(kind, sw_barrier, &a, tag, 7); break;
     case K_JCBAR: probe(kind, sw_jc, &a, tag, 8); break;
     case K_CONDRING:
-      sem_post_(&g->sem[(me + 1) % g->G]);
+      sem_post_(&g->sem[(me + 1) % g->G], (int)hk_below(r, 2));
+      /* a signal that changes nothing, issued without the mutex, is legal at any time (waiters
+         re-check their predicate): it may land at any instant of somebody's wait */
+      if (hk_below(r, 2)) { myth_cond_signal(&g->sem[hk_below(r, (uint64_t)g->G)].c); atomic_fetch_add(&g_spurious_signals, 1); }
       probe(kind, sw_sem_wait, &g->sem[me], tag, 1);
       break;
     case K_UNCOND:
@@ -319,6 +327,7 @@ int main(int argc, char ** argv) {
   hk_report("probes", total);
   hk_report("switcher_kinds_never_migrated_in_this_run", nomig);
   hk_report("stack_array_bytes", atomic_load(&g_stackbytes));
+  hk_report("cond_signals_without_mutex_and_without_state_change", atomic_load(&g_spurious_signals));
   hk_report("workers", myth_get_num_workers());
   return hk_finish();
 }
